@@ -14,6 +14,7 @@ import (
 	"sort"
 	"strconv"
 	"strings"
+	"time"
 
 	"github.com/fxamacker/cbor/v2"
 	cose "github.com/veraison/go-cose"
@@ -174,6 +175,14 @@ func (p *parser) value() any {
 		return p.mapv()
 	case p.eat("n"):
 		return nil
+	case p.eat("tm:"):
+		// a time.Time value (seconds since the epoch, UTC): the CBOR encoder has its own options for it
+		neg, m := p.integer()
+		sec := int64(m)
+		if neg {
+			sec = -sec
+		}
+		return time.Unix(sec, 0).UTC()
 	case p.eat("t"):
 		return true
 	case p.eat("x"):
@@ -361,6 +370,8 @@ func dumpValue(v any) string {
 	switch t := v.(type) {
 	case nil:
 		return "n"
+	case time.Time:
+		return "tm:" + strconv.FormatInt(t.Unix(), 10)
 	case int:
 		return "i:" + strconv.FormatInt(int64(t), 10)
 	case int8:
